@@ -1,11 +1,15 @@
 package c18
 
 import (
+	"bytes"
 	"fmt"
+	"log"
 	"math"
 	"os"
+	"regexp"
 	"runtime"
 	"sort"
+	"strconv"
 	"testing"
 	"time"
 
@@ -981,6 +985,8 @@ type atlas struct {
 	infeasib bool
 }
 
+var chartCountLine = regexp.MustCompile(`created a total of (\d+) local parameterizations`)
+
 func callPack(min, max model2d.Coord, border float64, maps []model3d.MeshUVMap) (res model3d.MeshUVMap, infeasible bool) {
 	defer func() {
 		if p := recover(); p != nil {
@@ -1020,10 +1026,27 @@ func buildAtlas(c atlasCase, o *kit.Obs) (*atlas, error) {
 					panic(p)
 				}
 			}()
-			nan = guarded(func() { a.uv = model3d.BuildAutomaticUVMap(a.b.m, c.Resolution, false) })
+			// verbose mode only adds log lines; the last one tells how many charts were packed
+			var logged bytes.Buffer
+			log.SetOutput(&logged)
+			defer func() {
+				log.SetOutput(os.Stderr)
+				if m := chartCountLine.FindSubmatch(logged.Bytes()); m != nil {
+					a.nCharts, _ = strconv.Atoi(string(m[1]))
+				}
+			}()
+			nan = guarded(func() { a.uv = model3d.BuildAutomaticUVMap(a.b.m, c.Resolution, true) })
 		}()
 		if nan {
 			return nil, solverVerdict(o, "BuildAutomaticUVMap")
+		}
+		// The border is 1/resolution and a quad-tree cell must be larger than two borders: (resolution/4)^2 cells at
+		// most. With more charts than that no layout exists at this resolution (the number of charts is the
+		// library's choice, up to several hundred on high-genus meshes): the panic is then a rejection, and a layout
+		// that happens to come out has cells without interior. Neither is judged.
+		if !nan && a.nCharts > (c.Resolution/4)*(c.Resolution/4) {
+			o.Skip("resolution-too-small-for-the-chart-count")
+			return nil, nil
 		}
 		if cells {
 			if kit.Excluded(tagCells) {
